@@ -889,6 +889,181 @@ def rule_histories(repo, chk, want):
     chk.floor("R-C14-4", len(want) + 3)
 
 
+def world_snapshot(lw):
+    """(usage records, {registry attr: {view: sorted names}}, control names) of an interpreted model"""
+    views = {}
+    for a, r in lw.regs.items():
+        views[a] = {}
+        for v in sorted(r._attrs):
+            x = r._attrs[v]
+            if v == "_usage":
+                continue
+            if isinstance(x, dict):
+                views[a][v] = sorted(map(str, x))
+            elif isinstance(x, lw.Instance) and x._cls.name == "OrderedSet":
+                views[a][v] = sorted(map(str, lw.I.iterate(x)))
+    ctl = lw.wn._attrs.get("_controls")
+    return (sorted(map(str, lw.records())), views, sorted(map(str, ctl)) if isinstance(ctl, dict) else None)
+
+
+def snapshot_diff(before, after):
+    out = []
+    if before[0] != after[0]:
+        out.append("usage records: +%s -%s" % (sorted(set(after[0]) - set(before[0])), sorted(set(before[0]) - set(after[0]))))
+    for a in before[1]:
+        for v in before[1][a]:
+            if before[1][a][v] != after[1].get(a, {}).get(v):
+                out.append("%s.%s: %s -> %s" % (a, v, before[1][a][v], after[1].get(a, {}).get(v)))
+    if before[2] != after[2]:
+        out.append("controls: %s -> %s" % (before[2], after[2]))
+    return out
+
+
+class _MockControl(object):
+    """a control that requires the given model objects (only requires() / _control_type_str() / name are read by remove_node / remove_link)"""
+    _sa_mock = True
+
+    def __init__(self, name, objs):
+        self.name = name
+        self._objs = list(objs)
+
+    def requires(self):
+        return list(self._objs)
+
+    def _control_type_str(self):
+        return "Control"
+
+    def __repr__(self):
+        return "<control %s>" % self.name
+
+
+def rule_refusals(repo, chk):
+    """Interpreted histories (LinkWorld, sa/concrete.py) whose point is what must NOT happen:
+    R-C14-6  an add_* with a name that already exists in its registry is refused (ValueError) and changes nothing -- no typed view, no usage record;
+    R-C14-7  add_pipe / add_pump / add_valve naming an end node that does not exist fails and leaves no usage record and no view entry behind;
+    R-C14-4  remove_node / remove_link of an element a control requires: refused with RuntimeError and nothing changes; with force the element goes and the
+             control stays; with with_control the element and exactly the requiring controls go; when the registry itself refuses (element still used by a
+             link) with_control must not have removed the controls;
+    R-C14-1c re-assigning a usage-filing setter to the value it already has keeps exactly the records it had (add-then-remove would lose the record)."""
+    from ..concrete import ProgramError
+    from ..src import ExtractError
+    MISSING = (AttributeError, NameError)
+
+    def attempt(lw, thunk):
+        before = world_snapshot(lw)
+        try:
+            thunk()
+            outcome = "returned normally"
+        except ProgramError as e:
+            if isinstance(e.exc, MISSING):
+                raise ExtractError("C14 refusal histories: the interpreted program needs something the mock model lacks: %s (line %s)" % (e, e.lineno))
+            outcome = "raised %s" % type(e.exc).__name__
+        return outcome, snapshot_diff(before, world_snapshot(lw))
+
+    def base_world():
+        lw = LinkWorld(repo)
+        lw.call(lw.wn, "add_pipe", "L1", "N1", "N2")
+        lw.call(lw.wn, "add_source", "S1", "N1", "CONCEN", 1.0, "PAT_A")
+        lw.call(lw.wn, "add_junction", "J4", base_demand=1.0, demand_pattern="PAT_B")
+        return lw
+    MODELFN = {m: repo.func(MODEL, "WaterNetworkModel." + m) for m in ("add_junction", "add_tank", "add_reservoir", "add_pipe", "add_pump", "add_valve", "add_pattern", "add_source",
+                                                                      "add_control", "remove_node", "remove_link")}
+    # ---- R-C14-6 duplicates
+    dups = [("add_junction", ("N1",), {}), ("add_tank", ("N1",), {}), ("add_reservoir", ("N1",), {}),
+            ("add_junction", ("N2",), dict(base_demand=1.0, demand_pattern="PAT_A")), ("add_reservoir", ("N2",), dict(head_pattern="PAT_A")),
+            ("add_pipe", ("L1", "N2", "N3"), {}), ("add_pump", ("L1", "N2", "N3"), dict(pump_type="HEAD", pump_parameter="CRV_A", pattern="PAT_A")),
+            ("add_pump", ("L1", "N2", "N3"), dict(pump_type="POWER", pump_parameter=10.0)),
+            ("add_valve", ("L1", "N2", "N3"), dict(valve_type="PRV")), ("add_valve", ("L1", "N2", "N3"), dict(valve_type="GPV", initial_setting="HL_A")),
+            ("add_pattern", ("PAT_A", [2.0]), {}), ("add_source", ("S1", "N2", "CONCEN", 2.0, "PAT_B"), {})]
+    for meth, a, k in dups:
+        lw = base_world()
+        outcome, changed = attempt(lw, lambda: lw.call(lw.wn, meth, *a, **k))
+        chk.expect(outcome in ("raised ValueError", "raised RuntimeError") and not changed, "R-C14-6",
+                   "wn.%s(%s%s) with a name that already exists is refused and changes nothing" % (meth, ", ".join(map(repr, a[:1])), ", ..." if len(a) > 1 or k else ""), loc(MODELFN[meth]),
+                   "interpreted on the repository's own registries: a second element under an existing name must be refused before anything is constructed -- a Link constructed first files usage "
+                   "records on its end nodes / curve / pattern, a typed view filed first keeps a ghost (num_pipes + num_pumps > num_links)",
+                   expected="ValueError, model unchanged", found="%s; changed: %s" % (outcome, changed or "nothing"))
+    lw = base_world()
+    c1, c2 = _MockControl("c1", []), _MockControl("c2", [])
+    lw.call(lw.wn, "add_control", "c1", c1)
+    outcome, changed = attempt(lw, lambda: lw.call(lw.wn, "add_control", "c1", c2))
+    kept = lw.wn._attrs["_controls"].get("c1") is c1
+    chk.expect(outcome in ("raised ValueError", "raised RuntimeError") and not changed and kept, "R-C14-6", "wn.add_control('c1', ...) with a name that already exists is refused and changes nothing", loc(MODELFN["add_control"]),
+               "a second control under an existing name would silently replace the first", expected="ValueError, first control kept", found="%s; changed: %s; first control kept: %s" % (outcome, changed or "nothing", kept))
+    chk.floor("R-C14-6", 13)
+    # ---- R-C14-7 no partial registration
+    partial = [("add_pipe", ("L2", "N1", "NOWHERE"), {}), ("add_pipe", ("L2", "NOWHERE", "N1"), {}),
+               ("add_pump", ("L2", "N1", "NOWHERE"), dict(pump_type="HEAD", pump_parameter="CRV_A", pattern="PAT_A")),
+               ("add_pump", ("L2", "N1", "NOWHERE"), dict(pump_type="POWER", pump_parameter=10.0)),
+               ("add_valve", ("L2", "N1", "NOWHERE"), dict(valve_type="GPV", initial_setting="HL_A")), ("add_valve", ("L2", "NOWHERE", "N1"), dict(valve_type="TCV"))]
+    for meth, a, k in partial:
+        lw = base_world()
+        outcome, changed = attempt(lw, lambda: lw.call(lw.wn, meth, *a, **k))
+        chk.expect(outcome.startswith("raised") and not changed, "R-C14-7", "wn.%s(%r, %r, %r%s) with a missing end node fails without leaving a record" % (meth, a[0], a[1], a[2], ", ..." if k else ""), loc(MODELFN[meth]),
+                   "a link whose end node does not exist raises after the other node (or a curve / pattern) was already marked as used by it: the phantom record makes get_links_for_node raise "
+                   "and remove_node / remove_curve refuse for ever", expected="an exception, model unchanged", found="%s; changed: %s" % (outcome, changed or "nothing"))
+    chk.floor("R-C14-7", 6)
+    # ---- R-C14-4 controls that require the element
+    for meth, reg, name, in (("remove_node", "_node_reg", "J4"), ("remove_link", "_link_reg", "L1")):
+        def world():
+            lw = base_world()
+            obj = lw.store(lw.regs[reg])[name]
+            other = lw.store(lw.regs["_node_reg"])["N2"]
+            for cn, objs in (("needs_it", [obj]), ("needs_other", [other]), ("needs_both", [other, obj])):
+                lw.call(lw.wn, "add_control", cn, _MockControl(cn, objs))
+            return lw
+        lw = world()
+        outcome, changed = attempt(lw, lambda: lw.call(lw.wn, meth, name))
+        chk.expect(outcome == "raised RuntimeError" and not changed, "R-C14-4", "wn.%s of an element a control requires is refused and changes nothing" % meth, loc(MODELFN[meth]),
+                   "interpreted: three controls, two of which require the element", expected="RuntimeError, model unchanged", found="%s; changed: %s" % (outcome, changed or "nothing"))
+        lw = world()
+        outcome, changed = attempt(lw, lambda: lw.call(lw.wn, meth, name, force=True))
+        gone = name not in lw.store(lw.regs[reg]) and not lw.views_holding(name, lw.regs[reg])
+        ctl = sorted(lw.wn._attrs["_controls"])
+        chk.expect(outcome == "returned normally" and gone and ctl == ["needs_both", "needs_it", "needs_other"], "R-C14-4", "wn.%s(force=True) removes the element and leaves the controls" % meth, loc(MODELFN[meth]),
+                   expected="element gone, three controls kept", found="%s; element gone: %s; controls: %s" % (outcome, gone, ctl))
+        lw = world()
+        outcome, changed = attempt(lw, lambda: lw.call(lw.wn, meth, name, with_control=True))
+        gone = name not in lw.store(lw.regs[reg]) and not lw.views_holding(name, lw.regs[reg])
+        ctl = sorted(lw.wn._attrs["_controls"])
+        chk.expect(outcome == "returned normally" and gone and ctl == ["needs_other"], "R-C14-4", "wn.%s(with_control=True) removes the element and exactly the controls that require it" % meth, loc(MODELFN[meth]),
+                   expected="element gone, only 'needs_other' kept", found="%s; element gone: %s; controls: %s" % (outcome, gone, ctl))
+    # the registry refuses (N1 is an end node of L1 and the node of S1): with_control must not have removed anything
+    lw = base_world()
+    n1 = lw.store(lw.regs["_node_reg"])["N1"]
+    lw.call(lw.wn, "add_control", "needs_n1", _MockControl("needs_n1", [n1]))
+    outcome, changed = attempt(lw, lambda: lw.call(lw.wn, "remove_node", "N1", with_control=True))
+    chk.expect(outcome == "raised RuntimeError" and not changed, "R-C14-4", "wn.remove_node(with_control=True) of a node a link still uses is refused and keeps the node's controls", loc(MODELFN["remove_node"]),
+               "the controls must not be deleted before the registry had its chance to refuse", expected="RuntimeError, model unchanged", found="%s; changed: %s" % (outcome, changed or "nothing"))
+    # ---- R-C14-1c same-value re-assignment keeps the record
+    bases = class_bases(repo)
+    same = [("add_pump", ("P", "N1", "N2"), dict(pump_type="HEAD", pump_parameter="CRV_A", pattern="PAT_A"), "_link_reg", [("speed_pattern_name", "PAT_A"), ("pump_curve_name", "CRV_A")]),
+            ("add_valve", ("P", "N1", "N2"), dict(valve_type="GPV", initial_setting="HL_A"), "_link_reg", [("headloss_curve_name", "HL_A")]),
+            ("add_reservoir", ("P",), dict(head_pattern="PAT_A"), "_node_reg", [("head_pattern_name", "PAT_A")]),
+            ("add_pipe", ("P", "N1", "N2"), {}, "_link_reg", [("start_node", "N1"), ("end_node", "N2")])]
+    n1c = 0
+    for meth, a, k, owner, props in same:
+        for prop, val in props:
+            lw = base_world()
+            lw.call(lw.wn, meth, *a, **k)
+            elem = lw.store(lw.regs[owner])["P"]
+            if prop == "vol_curve_name":
+                lw.I.setattr_(elem, prop, val)
+            v = lw.store(lw.regs["_node_reg"])[val] if prop in ("start_node", "end_node") else val
+            outcome, changed = attempt(lw, lambda: lw.I.setattr_(elem, prop, v))
+            n1c += 1
+            chk.expect(outcome == "returned normally" and not changed, "R-C14-1c", "%s.%s re-assigned to the value it already has keeps its usage record" % (elem._cls.name, prop), loc(ELEM),
+                       "usage entries are sets: a setter that adds the new record before it removes the old one loses the record when both are the same (same key re-assignment must keep one record)",
+                       expected="model unchanged", found="%s; changed: %s" % (outcome, changed or "nothing"))
+    lw = base_world()
+    lw.call(lw.wn, "add_tank", "P")
+    tank = lw.store(lw.regs["_node_reg"])["P"]
+    lw.I.setattr_(tank, "vol_curve_name", "VOL_A")
+    outcome, changed = attempt(lw, lambda: lw.I.setattr_(tank, "vol_curve_name", "VOL_A"))
+    chk.expect(outcome == "returned normally" and not changed, "R-C14-1c", "Tank.vol_curve_name re-assigned to the value it already has keeps its usage record", loc(ELEM),
+               expected="model unchanged", found="%s; changed: %s" % (outcome, changed or "nothing"))
+
+
 def run(repo, chk):
     bases = class_bases(repo)
     reg_classes = {n: repo.cls(MODEL, n) for n in ("PatternRegistry", "CurveRegistry", "SourceRegistry", "NodeRegistry", "LinkRegistry")}
@@ -916,9 +1091,6 @@ def run(repo, chk):
                         chk.expect(bool(same), "R-C14-1c", "%s.%s re-registers on %s tag %s" % (cname, mname, s[1], s[2]),
                                    loc(rel, s[4]), "a setter that re-registers usage must un-register the old key from the same registry with the same tag",
                                    expected="remove_usage on %s tag %s" % (s[1], s[2]), found=[(x[1], x[2]) for x in r])
-                        if same:
-                            chk.expect(same[0][4].lineno < s[4].lineno, "R-C14-1c", "%s.%s removes before adding (%s)" % (cname, mname, s[1]),
-                                       loc(rel, s[4]), "old usage must be removed before the new one is added (same key re-assignment keeps one record)")
     wm = repo.cls(MODEL, "WaterNetworkModel")
     for s in usage_sites(repo.func(MODEL, "WaterNetworkModel.add_source")):
         if s[0] == "add_usage":
@@ -955,39 +1127,14 @@ def run(repo, chk):
                                loc(MODEL, s[4]), "Demands.pattern_list() yields Pattern objects; _usage is keyed by names", expected="<pattern>.name", found=unparse(key))
     chk.floor("R-C14-1a", 8)
     chk.floor("R-C14-1b", 9)
-    chk.floor("R-C14-1c", 8)
+    chk.floor("R-C14-1c", 4)
 
     # ---------------------------------------------------------------- R-C14-2 / -3 / -4 / -8 and the filing part of R-C14-5: interpreted histories
     rule_histories(repo, chk, TYPED_SETS)
-    # R-C14-4 (static part): remove_node / remove_link refuse, unless forced, while a control requires the element
-    for meth, reg in (("remove_node", "_node_reg"), ("remove_link", "_link_reg")):
-        fn = repo.func(MODEL, "WaterNetworkModel.%s" % meth)
-        chk.fn(fn)
-        stmts = flat_stmts(fn.body)
-        dels = [s for s in stmts if calls(s, attr="__delitem__") or isinstance(s, ast.Delete) or any(deletes_from(fn, s, r_) for r_ in REG_ATTRS)]
-        dels = [s for s in dels if not isinstance(s, (ast.If, ast.For, ast.Try))]
-        rs = [s for s in stmts if isinstance(s, ast.Raise)]
-        good = False
-        if rs and dels:
-            r0 = rs[0]
-            guard_force = False
-            guard_req = False
-            q = r0
-            while q is not None and q is not fn:
-                p = parent(q)
-                if isinstance(p, ast.If):
-                    t = unparse(p.test)
-                    if "force" in t and q in p.body and "not" in t:
-                        guard_force = True
-                    if "requires()" in t and q in p.body:
-                        guard_req = True
-                q = p
-            good = guard_force and guard_req and r0.lineno < min(d.lineno for d in dels)
-            same_reg = all(deletes_from(fn, d, reg) for d in dels)
-            chk.expect(same_reg, "R-C14-4", "WaterNetworkModel.%s deletes from %s" % (meth, reg), loc(fn, dels[0]))
-        chk.expect(good, "R-C14-4", "WaterNetworkModel.%s refuses (unless force) when a control requires the element, before deleting" % meth, loc(fn),
-                   "raise must be under `not force` and a `control.requires()` membership test and precede the registry deletion")
-
+    rule_refusals(repo, chk)
+    chk.floor("R-C14-1c", 11)
+    chk.floor("R-C14-4", len(TYPED_SETS) + 3 + 7)
+    # (R-C14-4: refusal while a control requires the element, force and with_control are decided by the interpreted histories of rule_refusals)
     # R-C14-4b: nothing is removed from the model before the registry had its chance to refuse: every remove_control in remove_node /
     # remove_link is dominated by the registry's __delitem__ (a refused removal leaves the controls too)
     from ..cfg import CFG
@@ -1004,18 +1151,7 @@ def run(repo, chk):
                        expected="remove_control dominated by %s.__delitem__" % reg, found=g.label(rc))
         if not rcs or not dels:
             raise AnchorError("WaterNetworkModel.%s: remove_control / deletion from self.%s not found" % (meth, reg))
-    # R-C14-7: no partial registration: in Link.__init__ every registry lookup that can raise precedes the first add_usage
-    li = repo.func(BASE, "Link.__init__")
-    chk.fn(li)
-    adds = [c for c in calls(li) if last_attr(c) == "add_usage"]
-    looks = [n for n in walk(li) if isinstance(n, ast.Subscript) and isinstance(n.ctx, ast.Load) and unparse(n.value).endswith("_node_reg")]
-    if len(adds) < 2 or len(looks) < 2:
-        raise AnchorError("Link.__init__: node lookups / add_usage calls not found")
-    first_add = min(c.lineno for c in adds)
-    late = [n for n in looks if n.lineno > first_add]
-    chk.expect(not late, "R-C14-7", "Link.__init__ looks up both end nodes before it records any usage", loc(li, late[0]) if late else loc(li),
-               "a link whose end node does not exist raises KeyError after the start node was already marked as used by it: the phantom record makes get_links_for_node raise "
-               "and remove_node refuse", expected="all self._node_reg[...] lookups before the first add_usage", found=[norm(n) for n in late])
+    # (R-C14-7: no partial registration is decided by the interpreted histories of rule_refusals)
     # R-C14-1e: guards on pattern objects are identity tests: Pattern defines __len__, an empty pattern is falsy
     falsy_classes = {cname for cname, c in repo.classes(ELEM).items() if any(isinstance(n, ast.FunctionDef) and n.name in ("__len__", "__bool__") for n in c.body)}
     chk.sample({"rule": "R-C14-1e", "classes_with_len_or_bool": sorted(falsy_classes)})
@@ -1050,24 +1186,7 @@ def run(repo, chk):
                "Junction.base_demand / demand_pattern are read-only and point to demand_timeseries_list[0].pattern_name = ... as the way to change a pattern; that setter only stores the "
                "name: the new pattern can be removed while in use and the old one cannot be removed although unused", expected="remove_usage(old) and add_usage(new)", found=ops)
 
-    # R-C14-6: a name identifies one element of its kind: every add_* refuses an existing name BEFORE it constructs anything
-    dup_sites = [("NodeRegistry", m, "self._data") for m in ("add_junction", "add_tank", "add_reservoir")] + \
-                [("LinkRegistry", m, "self._data") for m in ("add_pipe", "add_pump", "add_valve")] + \
-                [("PatternRegistry", "add_pattern", "self._data"), ("WaterNetworkModel", "add_source", "self._sources"), ("WaterNetworkModel", "add_control", "self._controls")]
-    for cname, meth, store in dup_sites:
-        fn = repo.func(MODEL, "%s.%s" % (cname, meth))
-        chk.fn(fn)
-        refusals = [n for n in walk(fn) if isinstance(n, ast.If) and any(isinstance(x, ast.Raise) for x in n.body) and isinstance(n.test, ast.Compare)
-                    and isinstance(n.test.ops[0], ast.In) and unparse(n.test.comparators[0]).replace(".keys()", "") == store]
-        builds = [c for c in calls(fn) if isinstance(c.func, ast.Name) and c.func.id[:1].isupper() and c.func.id not in ("ValueError", "RuntimeError", "LinkStatus")]
-        stores_ = [a for a in walk(fn) if isinstance(a, ast.Assign) and isinstance(a.targets[0], ast.Subscript) and unparse(a.targets[0].value) in ("self", store)]
-        first_effect = min([c.lineno for c in builds] + [a.lineno for a in stores_] or [10 ** 9])
-        okd = bool(refusals) and (refusals[0].lineno < first_effect or meth == "add_pattern")
-        chk.expect(okd, "R-C14-6", "%s.%s refuses a name that already exists before creating the element" % (cname, meth), loc(fn),
-                   "add_pipe('L', ..) followed by add_pump('L', ..) left 'L' in pipe_name_list and pump_name_list (num_pipes + num_pumps = 2, num_links = 1) and a stale usage record "
-                   "on the first link's nodes; a second source of the same name made its node impossible to remove", expected="if name in %s: raise ValueError" % store,
-                   found="%d refusal(s), first construction at line %s" % (len(refusals), first_effect))
-    chk.floor("R-C14-6", 9)
+    # (R-C14-6: duplicate names are decided by the interpreted histories of rule_refusals)
 
     # ---------------------------------------------------------------- R-C14-5
     def prop_return(cls, name):
@@ -1213,6 +1332,14 @@ def run(repo, chk):
 
 
 WITNESSES = [
+    # ---- refusal / atomicity histories (rule_refusals)
+    dict(name="setter-adds-before-it-removes", file=ELEM, old="        self._curve_reg.remove_usage(self._vol_curve_name, (self._name, 'Tank'))\n        self._curve_reg.add_usage(name, (self._name, 'Tank'))\n",
+         new="        self._curve_reg.add_usage(name, (self._name, 'Tank'))\n        self._curve_reg.remove_usage(self._vol_curve_name, (self._name, 'Tank'))\n", rule="R-C14-1c"),
+    dict(name="remove-link-refusal-only-when-forced", file=MODEL, old="        link = self.get_link(name)\n        if not force:\n", new="        link = self.get_link(name)\n        if force:\n", rule="R-C14-4"),
+    dict(name="duplicate-link-name-checked-after-construction", file=MODEL, old="        pipe = Pipe(name, start_node_name, end_node_name, self)\n", new="        pipe = Pipe(name, start_node_name, end_node_name, self)\n        if name in self._data:\n            raise ValueError('Link name already exists')\n",
+         also=[('        if name in self._data:\n            raise ValueError("Link name already exists")\n        assert (\n            isinstance(start_node_name, str) and len(start_node_name) < 32 and start_node_name.find(" ") == -1\n        ), "start_node_name must be a string with less than 32 characters and contain no spaces"\n        assert (\n            isinstance(end_node_name, str) and len(end_node_name) < 32 and end_node_name.find(" ") == -1\n        ), "end_node_name must be a string with less than 32 characters and contain no spaces"\n        length = float(length)', '        length = float(length)')], rule="R-C14-6"),
+    dict(name="quiet-duplicate-check-hoisted-into-local", file=MODEL, silent=True, old='        if name in self._data:\n            raise ValueError("Link name already exists")\n        assert (\n            isinstance(start_node_name, str) and len(start_node_name) < 32 and start_node_name.find(" ") == -1\n        ), "start_node_name must be a string with less than 32 characters and contain no spaces"\n        assert (\n            isinstance(end_node_name, str) and len(end_node_name) < 32 and end_node_name.find(" ") == -1\n        ), "end_node_name must be a string with less than 32 characters and contain no spaces"\n        length = float(length)',
+         new='        taken = name in self._data\n        length = float(length)\n        if taken:\n            raise ValueError("Link name already exists")\n'),
     dict(name="duplicate-source-name-accepted", file=MODEL, old='        if name in self._sources:\n            raise ValueError("Source name already exists")\n', new="", rule="R-C14-6"),
     dict(name="controls-removed-before-refusal", file=MODEL, old="        self._node_reg.__delitem__(name)\n        if not force and with_control:\n            for i in x:\n                self.remove_control(i)\n",
          new="        if not force and with_control:\n            for i in x:\n                self.remove_control(i)\n        self._node_reg.__delitem__(name)\n", rule="R-C14-4b"),
